@@ -39,6 +39,9 @@ pub enum Mode {
     A { only: Option<(u64, Pos)> },
     /// halter thread yields `yields` times before storing; scheduler "random" | "pct"
     B { sched: String, sched_seed: u64, yields: u32 },
+    /// long haul: a small non-terminating loop runs without event recording and the flag is raised from inside at
+    /// top-level instruction k (thousands to hundreds of thousands of instructions into the run)
+    Long { k: u64 },
 }
 
 #[derive(Serialize, Deserialize, Clone, Debug, PartialEq)]
@@ -61,6 +64,8 @@ pub struct RunResult {
 // ------------------------------------------------------------------ observer
 
 struct HaltObs {
+    /// top-level instructions started after the flag was raised (counted even when events are not recorded)
+    after: std::rc::Rc<std::cell::Cell<u64>>,
     flag: Arc<AtomicBool>,
     at: Option<(u64, Pos)>,
     current_d0: Option<u64>,
@@ -83,6 +88,9 @@ impl HaltObs {
 impl Observer for HaltObs {
     fn on_start(&mut self, core: &mut Core, info: &StartInfo, _vars: &mut HashMap<String, String>, _s: &mut HashMap<String, StateValue>, _e: &mut Env) -> Option<CommandResult> {
         if let Some(k) = info.d0_index {
+            if self.done {
+                self.after.set(self.after.get() + 1);
+            }
             self.current_d0 = Some(k);
         }
         if let Some((k, pos)) = self.at.clone() {
@@ -101,7 +109,7 @@ impl Observer for HaltObs {
         // the variables as they are once this instruction is complete: the command's own effects, then its
         // output variable as the runner will set it, then (after an error) whatever the handler did.
         // Command-less lines that follow (e.g. `x =`) are separate instructions and not part of it.
-        if info.depth == 0 {
+        if info.depth == 0 && !core.quiet {
             let mut after: Vars = v.iter().map(|(a, b)| (a.clone(), b.clone())).collect();
             if info.handler {
                 if let Some(last) = self.snapshots.borrow_mut().last_mut() {
@@ -165,7 +173,7 @@ fn run_program(program: &Program, env: &WorkerEnv, flag: Arc<AtomicBool>) -> Res
 fn run_once(program: &Program, env: &WorkerEnv, at: Option<(u64, Pos)>, budget: u64) -> Result<RunResult, String> {
     let flag = Arc::new(AtomicBool::new(false));
     let snaps = std::rc::Rc::new(std::cell::RefCell::new(Vec::new()));
-    sim::reset(Some(Box::new(HaltObs { flag: flag.clone(), at, current_d0: None, snapshots: snaps.clone(), done: false })));
+    sim::reset(Some(Box::new(HaltObs { after: Default::default(), flag: flag.clone(), at, current_d0: None, snapshots: snaps.clone(), done: false })));
     sim::with_core(|c| c.budget = budget);
     let res = std::panic::catch_unwind(std::panic::AssertUnwindSafe(|| run_program(program, env, flag)));
     let _ = sim::take_observer();
@@ -420,6 +428,58 @@ fn mode_a(program: &Program, env: &WorkerEnv, only: &Option<(u64, Pos)>) -> (Ver
     (Verdict::Pass, combined, fired, probes)
 }
 
+// ------------------------------------------------------------------ long haul
+
+fn mode_long(k: u64, env: &WorkerEnv) -> (Verdict, Vec<Event>, BTreeMap<String, u64>, BTreeMap<String, u64>) {
+    let mut fired: BTreeMap<String, u64> = BTreeMap::new();
+    let mut probes: BTreeMap<String, u64> = BTreeMap::new();
+    // a 4-line loop: two plain commands, one with an output variable, a jump back
+    let line = |cmd: &str, out: Option<&str>, ans: c03::Ans| c03::Line { kind: c03::LineKind::Cmd, label: None, out: out.map(|s| s.to_string()), cmd: Some(cmd.to_string()), args: vec!["a".to_string()], answers: vec![ans] };
+    let case = c03::Case {
+        entropy: 0,
+        file_mode: false,
+        handler: None,
+        handler_initially: true,
+        init: vec![],
+        lines: vec![line("k0", None, c03::Ans::Cont(None)), line("k1", Some("v0"), c03::Ans::Cont(Some("x".to_string()))), line("k2", None, c03::Ans::Cont(Some("y".to_string()))), line("k3", None, c03::Ans::GotoLine(None, 0))],
+        budget: u64::MAX / 2,
+    };
+    let flag = Arc::new(AtomicBool::new(false));
+    let after = std::rc::Rc::new(std::cell::Cell::new(0u64));
+    let snaps = std::rc::Rc::new(std::cell::RefCell::new(Vec::new()));
+    sim::reset(Some(Box::new(HaltObs { after: after.clone(), flag: flag.clone(), at: Some((k, Pos::Before)), current_d0: None, snapshots: snaps, done: false })));
+    sim::with_core(|c| {
+        c.budget = k + 2_000;
+        c.quiet = true;
+    });
+    let res = std::panic::catch_unwind(std::panic::AssertUnwindSafe(|| run_program(&Program::Scripted(case), env, flag)));
+    let _ = sim::take_observer();
+    let (log, steps, budget_hit) = sim::with_core(|c| (std::mem::take(&mut c.log), c.steps, c.budget_hit));
+    *fired.entry("F6".to_string()).or_insert(0) += 1;
+    *probes.entry(format!("long-haul-halt-after-10^{}-instructions", (k as f64).log10().floor() as u32)).or_insert(0) += 1;
+    let mut log = log;
+    log.push(Event::Note { seq: 0, text: format!("long haul: events not recorded; {} decorated invocations, halt raised at top-level instruction {}", steps, k) });
+    let verdict = match res {
+        Err(_) => {
+            let p = sim::take_panic().unwrap_or_default();
+            Verdict::Fail { class: format!("panic@{}", sim::panic_site(&p)), detail: p }
+        }
+        Ok(end) => {
+            if after.get() > 0 {
+                Verdict::Fail { class: "start-after-halt".to_string(), detail: format!("long haul: flag raised during top-level instruction #{}; {} further top-level instructions were started", k, after.get()) }
+            } else if budget_hit {
+                Verdict::Fail { class: "not-halted".to_string(), detail: format!("long haul: flag raised at instruction #{} and the run went on to the step limit", k) }
+            } else {
+                match end {
+                    Ok(_) => Verdict::Pass,
+                    Err(e) => Verdict::Fail { class: "halted-run-failed".to_string(), detail: e },
+                }
+            }
+        }
+    };
+    (verdict, log, fired, probes)
+}
+
 // ------------------------------------------------------------------ mode B (shuttle)
 
 fn yield_hook() {
@@ -641,7 +701,11 @@ impl Prop for C13 {
         let mode_b = rng.chance(1, 4);
         let looping = rng.chance(1, 4);
         let program = gen_program(rng, looping);
-        let mode = if mode_b {
+        let mode = if rng.chance(1, 250) {
+            // log-uniform between 10^3 and 5*10^5 instructions
+            let e = 3.0 + (rng.below(2700) as f64) / 1000.0;
+            Mode::Long { k: 10f64.powf(e) as u64 }
+        } else if mode_b {
             let pct = !looping && rng.chance(1, 4);
             Mode::B { sched: if pct { "pct".to_string() } else { "random".to_string() }, sched_seed: rng.next_u64(), yields: { let m = if rng.chance(1, 2) { 12 } else { 120 }; rng.below(m) as u32 } }
         } else {
@@ -657,6 +721,7 @@ impl Prop for C13 {
         let (verdict, log, fired, probes) = match &case.mode {
             Mode::A { only } => mode_a(&case.program, env, only),
             Mode::B { sched, sched_seed, yields } => mode_b(&case.program, env, sched, *sched_seed, *yields),
+            Mode::Long { k } => mode_long(*k, env),
         };
         sim::reset(None);
         sim::with_core(|c| {
@@ -695,6 +760,15 @@ impl Prop for C13 {
                 let mut c = case.clone();
                 c.mode = Mode::A { only: Some((k - 1, pos.clone())) };
                 out.push(c);
+            }
+        }
+        if let Mode::Long { k } = &case.mode {
+            for kk in [k / 2, k * 9 / 10, k - 1] {
+                if kk > 0 && kk != *k {
+                    let mut c = case.clone();
+                    c.mode = Mode::Long { k: kk };
+                    out.push(c);
+                }
             }
         }
         if let Mode::B { sched, sched_seed, yields } = &case.mode {
